@@ -132,6 +132,17 @@ fn counted_direct<T: Decode>(b: &[u8], start: u64) -> (bool, u64, u64, usize) {
 	(ok, count, spy.delivered, spy.pos)
 }
 
+/// `T::decode` over `CountedInput<&[u8]>`: (ok, count(), bytes the slice has given up)
+fn counted_slice<T: Decode>(b: &[u8]) -> (bool, u64, usize) {
+	let mut s = b;
+	let (ok, count) = {
+		let mut c = parity_scale_codec::CountedInput::new(&mut s);
+		let r = T::decode(&mut c);
+		(r.is_ok(), c.count())
+	};
+	(ok, count, b.len() - s.len())
+}
+
 fn skip_dyn<T: Decode>(i: &mut dyn Input) -> bool {
 	T::skip(&mut Dyn(i)).is_ok()
 }
@@ -185,6 +196,8 @@ pub struct DecOps {
 	/// direct (monomorphic) decode through `CountedInput<SpyInput>` started at the given count:
 	/// (ok, count(), bytes the spy delivered, spy position)
 	pub counted: fn(&[u8], u64) -> (bool, u64, u64, usize),
+	/// the same over the library's own slice input: (ok, count(), bytes the slice advanced by)
+	pub counted_slice: fn(&[u8]) -> (bool, u64, usize),
 	pub all: fn(&[u8]) -> Option<Val>,
 	pub depth_slice: fn(u32, &[u8]) -> (Option<Val>, usize),
 	pub all_depth: fn(u32, &[u8]) -> Option<Val>,
@@ -241,6 +254,7 @@ impl TypeOps {
 			bytes_keep: bytes_keep::<T>,
 			skip: skip_dyn::<T>,
 			counted: counted_direct::<T>,
+			counted_slice: counted_slice::<T>,
 			all: dec_all::<T>,
 			depth_slice: dec_depth_slice::<T>,
 			all_depth: dec_all_depth::<T>,
